@@ -511,8 +511,12 @@ fn check_type_relation<T: TypeLookup>(
                 return false;
             }
 
-            // All fields in pattern must exist in self with compatible types
+            // All fields in pattern must exist in self with compatible types. For overlap (ANY)
+            // a field that only the pattern names is unconstrained in self.
             fields2.iter().all(|(fname2, ftype2)| {
+                if mode == UnionMode::Any && !fields1.iter().any(|(fname1, _)| fname1 == fname2) {
+                    return true;
+                }
                 fields1.iter().any(|(fname1, ftype1)| {
                     fname1 == fname2
                         && check_type_relation(
@@ -527,6 +531,18 @@ fn check_type_relation<T: TypeLookup>(
                 })
             })
         }
+
+        // Overlap is symmetric: a partial on the self side overlaps a concrete tuple exactly
+        // when that tuple overlaps the partial.
+        (Type::Partial { .. }, Type::Tuple(_)) if mode == UnionMode::Any => check_type_relation(
+            pattern_id,
+            self_id,
+            lookup,
+            mode,
+            assumptions,
+            pattern_stack,
+            self_stack,
+        ),
 
         // Process types
         (
